@@ -67,6 +67,13 @@ int main(int argc, char **argv)
     else if (!strcmp(fam, "qwords")) { rep("\"a\".", n); wrap("", "b@a.bc"); }
     else if (!strcmp(fam, "brackets")) { rep("]", n); wrap("x@[", ""); }
     else if (!strcmp(fam, "hyphens")) { rep("a-", n); wrap("x@", "a.com"); }
+    else if (!strcmp(fam, "labels-reserved")) { rep("a.", n); wrap("x@", "example.com"); }
+    else if (!strcmp(fam, "local-literal")) { rep("a", n); wrap("", "@[IPv6:1:2:3:4:5:6:7:8]"); }
+    else if (!strcmp(fam, "open-brackets")) { rep("[", n); wrap("x@", "1.2.3.4]"); }
+    else if (!strcmp(fam, "zeros-literal")) { rep("0", n); wrap("x@[", "1.2.3.4]"); }
+    else if (!strcmp(fam, "escaped-quotes")) { rep("\\\"", n); wrap("\"", "\"@a.bc"); }
+    else if (!strcmp(fam, "dots-then-error")) { rep("a.", n); wrap("", ".@a.bc"); }
+    else if (!strcmp(fam, "spaces")) { rep(" ", n); wrap("\"", "\"@a.bc"); }
     else return 2;
     cost_target();
     printf("%ld %lu\n", sink, (unsigned long)len);
